@@ -102,3 +102,20 @@ Theorem C20_dotdot_start_historical_refuted :
   expected fs_dotdot_old "tasks" (abs_comps "/" "/a/b/..") = None /\
   spec_ok fs_dotdot_old "/" "/a/b/.." "tasks" (obs_of (load_old fs_dotdot_old "/" "tasks" "/a/b/..")) = false.
 Proof. exact dotdot_historical_refutes. Qed.
+
+(** One loader object built without a start, used in a sequence of steps
+    (reading [.start] or loading, each in some working directory): whatever
+    the earlier steps were -- loads in other directories, also ones that found
+    nothing, reads of [.start] -- the k-th step, if it is a load in working
+    directory [cwd], answers the nearest candidate at or above [cwd] and
+    satisfies the specification with start := [cwd] (the default start is
+    the working directory at the time of the load).  [guard_exists]: that
+    directory exists. *)
+Theorem C20_session_default_start :
+  forall fs name steps k cwd,
+    nth_error steps k = Some (LLoad cwd) ->
+    guard_exists fs cwd cwd name = true ->
+    exists r, nth_error (session_run fs None name steps) k = Some (RLoad r) /\
+              r = to_loaded (expected fs name (abs_comps cwd cwd)) /\
+              spec_ok fs cwd cwd name (obs_of r) = true.
+Proof. exact session_default_start. Qed.
